@@ -161,6 +161,29 @@ func (e *env) eval(f fn, vals []value.Value) (value.Value, outcome) {
 // afterwards each operand must still equal a freshly built copy of itself exactly as a fresh copy does.
 func (e *env) checkStable(s sink, i, j int) {
 	x, y := e.pool[i], e.pool[j]
+	if i == j {
+		// the very same object on both sides (x = x, a list compared with itself): the outcome is decided by
+		// the items, not by object identity — the same as for two separately built equal values
+		for k, op := range ops {
+			v := e.bd.build(x)
+			_, same := e.eval(e.opFn[k], []value.Value{v, v})
+			_, fresh := e.eval(e.opFn[k], []value.Value{e.bd.build(x), e.bd.build(x)})
+			if same.c != fresh.c && refOp(op, x, x).r != 'U' {
+				s.Violate("an operator applied to one and the same object on both sides gives another outcome than on two separately built equal values",
+					e.repro("operand-stability", i, j, -1, "a "+op+" a (same object)"), "as for two equal values: "+fresh.String(), same.String(), "")
+			}
+			// … and nested one level: [v] op [v], {k:v} op {k:v} with the same v inside
+			for _, wrap := range []string{"[a] " + op + " [b]", "{k:a} " + op + " {k:b}", "[1,a] " + op + " [1,b]"} {
+				f := e.bd.gen(wrap, "a", "b")
+				_, sameN := e.eval(f, []value.Value{v, v})
+				_, freshN := e.eval(f, []value.Value{e.bd.build(x), e.bd.build(x)})
+				if sameN.c != freshN.c && refOp(op, x, x).r != 'U' {
+					s.Violate("an operator applied to containers holding one and the same object gives another outcome than on separately built equal values",
+						e.repro("operand-stability", i, j, -1, wrap+" with a, b the same object"), "as for two equal values: "+freshN.String(), sameN.String(), "")
+				}
+			}
+		}
+	}
 	for k, op := range ops {
 		vals := []value.Value{e.bd.build(x), e.bd.build(y)}
 		_, o1 := e.eval(e.opFn[k], vals)
